@@ -27,7 +27,7 @@ def stats_add(other):
     STATS[k] = STATS.get(k, 0) + v
 
 
-RLIMIT_PER_MS = 4500      # z3 resource units per millisecond (calibrated on this machine; deterministic bound)
+RLIMIT_PER_MS = 2000      # z3 resource units per millisecond (calibrated on this machine; deterministic bound)
 OLD_Z3 = '/usr/bin/z3'
 
 
@@ -824,10 +824,37 @@ def mark_pos(t):
     EX.cache[('nonneg', t.get_id())] = (t, True)
 
 
+def syntactically_pos(t, depth=0):
+  """cheap sufficient test for t > 0: positive numeral, registered positive term, sum of non-negative
+  terms with a positive one, product of positive factors"""
+  if depth > 8:
+    return False
+  v = _num_value(t)
+  if v is not None:
+    return v > 0
+  if EX is not None and EX.active and ('pos', t.get_id()) in EX.cache:
+    return True
+  if not z3.is_app(t):
+    return False
+  k = t.decl().kind()
+  ch = t.children()
+  if k == z3.Z3_OP_ADD:
+    return all(syntactically_nonneg(c) for c in ch) and any(syntactically_pos(c, depth + 1) for c in ch)
+  if k == z3.Z3_OP_MUL:
+    return all(syntactically_pos(c, depth + 1) for c in ch)
+  if k == z3.Z3_OP_TO_REAL:
+    return syntactically_pos(ch[0], depth + 1)
+  if k == z3.Z3_OP_UNINTERPRETED and t.decl().name() == 'EXP':
+    return True
+  return False
+
+
 def known_pos(t):
   if EX is None or not EX.active:
     return False
   if ('pos', t.get_id()) in EX.cache:
+    return True
+  if syntactically_pos(t):
     return True
   try:
     c = canon(t)
